@@ -387,6 +387,71 @@ func ruleRoleIndexTable(c *Ctx) {
 			}
 		}
 	}
+	// every peer of a role is filed: each iteration of the loop over the voters reaches the leaders or the
+	// followers index, each learner the learners index, each pending peer the pending index — whatever the
+	// peer's joint-consensus role (a demoting voter still is a peer on its store)
+	roleIdx := map[string][]string{"GetVoters": {"leaders", "followers"}, "GetLearners": {"learners"}, "GetPendingPeers": {"pendingPeers"}}
+	nLoops := 0
+	loopOK, loopPos := map[string]bool{}, map[string]string{}
+	var loopOrder []string
+	for _, fn := range []*ssa.Function{P.Method("server/core", "RegionsInfo", "SetRegion"), P.Method("server/core", "RegionsInfo", "updateSubTreeStat")} {
+		for _, l := range loopsOf(fn) {
+			getter := ""
+			for b := range l.blocks {
+				for _, ins := range b.Instrs {
+					if u, ok := ins.(*ssa.UnOp); ok && u.Op == token.MUL {
+						if ia, ok := u.X.(*ssa.IndexAddr); ok {
+							if cl, _ := callOf(ia.X); cl != nil && cl.Call.StaticCallee() != nil && roleIdx[cl.Call.StaticCallee().Name()] != nil && len(cl.Call.Args) == 1 {
+								// the region being inserted/updated, not the origin
+								getter = cl.Call.StaticCallee().Name()
+							}
+						}
+					}
+				}
+			}
+			if getter == "" {
+				continue
+			}
+			var fields []*types.Var
+			for _, name := range roleIdx[getter] {
+				fields = append(fields, P.Field("server/core", "RegionsInfo", name))
+			}
+			isAccess := func(x ssa.Instruction) bool {
+				var m ssa.Value
+				switch t := x.(type) {
+				case *ssa.Lookup:
+					m = t.X
+				case *ssa.MapUpdate:
+					m = t.Map
+				default:
+					return false
+				}
+				for _, f := range fields {
+					if isLoadOf(m, f) {
+						return true
+					}
+				}
+				return false
+			}
+			key := getter + " " + fnName(fn)
+			if _, seen := loopOK[key]; !seen {
+				loopOK[key] = true
+				loopOrder = append(loopOrder, key)
+				loopPos[key] = P.pos(fn.Pos())
+			}
+			if !everyIterationCalls(l, isAccess) {
+				loopOK[key] = false
+			}
+		}
+	}
+	for _, key := range loopOrder {
+		nLoops++
+		parts := strings.SplitN(key, " ", 2)
+		c.Check(loopOK[key], rule, fmt.Sprintf("loop over %s() in %s", parts[0], parts[1]), "every peer of the role reaches its per-store index ("+strings.Join(roleIdx[parts[0]], "/")+"): no peer is skipped", loopPos[key], "an iteration can pass without touching the index")
+	}
+	if nLoops < 6 {
+		c.Undec(rule, "role loops in SetRegion / updateSubTreeStat", "6 (voters, learners, pending peers in each)", "", fmt.Sprint(nLoops))
+	}
 	if n < 10 {
 		c.Undec(rule, "index accesses", "at least 10 keyed accesses of the four per-store indexes in SetRegion and updateSubTreeStat", "", fmt.Sprintf("found %d", n))
 	}
